@@ -246,7 +246,7 @@ OPS = {
  ]),
  'C19': dict(funcs=['aa.VariantPeptidePool:VariantPeptidePool.filter'], ops=[
     B('add-always', 'aa.VariantPeptidePool:VariantPeptidePool.filter', is_if('keep'), sub_in_node('if keep:', 'if True:'), 'C19.a'),
-    B('keep-always', 'aa.VariantPeptidePool:VariantPeptidePool.filter', is_if('should_keep'), sub_in_node('if should_keep:', 'if True:'), 'C19.a'),
+    B('keep-always', 'aa.VariantPeptidePool:VariantPeptidePool.filter', is_if('should_keep'), sub_in_node('if should_keep:', 'if True:'), 'C19.e'),
     B('cutoff-flipped', 'aa.VariantPeptidePool:VariantPeptidePool.filter', expr_text('exprs[tx] >= cutoff'), replace_with('exprs[tx] <= cutoff'), 'C19.b'),
     B('zero-bound-ignored', 'aa.VariantPeptidePool:VariantPeptidePool.filter', expr_text('miscleavage_range[1] is not None and len(misc) > miscleavage_range[1]'),
       replace_with('miscleavage_range[1] and len(misc) > miscleavage_range[1]'), 'C19.b'),
